@@ -121,7 +121,13 @@ func CheckCall(sc *Scenario, v *CallView, rs RuleSet, em int) []Violation {
 		}
 		if rd.Has(SecReader) {
 			if len(x.Sames) > 0 {
-				add("unassigned-local-visible", "", fmt.Sprintf("%s: rule %d read local x (=%d) that it never assigned", c, x.Rule, x.Sames[0]))
+				nm := "x"
+				for _, sec := range rd.Secs {
+					if sec.Kind == SecReader {
+						nm = rd.ReaderName(sec.Arg)
+					}
+				}
+				add("unassigned-local-visible", "", fmt.Sprintf("%s: rule %d read local %s (=%d) that it never assigned", c, x.Rule, nm, x.Sames[0]))
 			}
 			continue
 		}
@@ -148,7 +154,7 @@ func CheckCall(sc *Scenario, v *CallView, rs RuleSet, em int) []Violation {
 					add("local-changed-by-other-execution", "method-on-local", fmt.Sprintf("%s: rule %d keeps its own object (%d) in local lo, the method call reached object %d", c, x.Rule, x.Rule+500, e.C))
 				}
 			}
-			if e.Kind == EvAlias && e.C == 4 {
+			if e.Kind == EvAlias && (e.C == 4 || e.C&8 != 0) {
 				continue
 			}
 			if e.Kind == EvAlias && e.C&2 != 0 {
